@@ -59,7 +59,7 @@ def budget(tier):
 def strategy(tier):
     c = C
     DOK, FREE = convgen.dok_pair(c), convgen.free_pair(c)
-    SPEC = synth.world_spec(connected=False, prod=True)
+    SPEC = synth.world_spec(connected=False, prod=True, orphans=True, min_ext=1)
     MAG = convgen.magnitudes()
     CHAIN = st.integers(50, 1500) if tier == "thorough" else st.integers(20, 120)
 
@@ -79,6 +79,36 @@ def strategy(tier):
             dst.append([draw(synth.ST_PFX), synth._choose(draw, groups[names.get(n, ("speed", 1))]), e])
         return {"src": src, "dst": convgen.shuffle(draw, dst), "mag": draw(MAG)}
 
+    PARTS = {4: [[2, 2], [3, 1], [2, 1, 1], [1, 1, 1, 1]], 5: [[3, 2], [2, 2, 1], [3, 1, 1]], 6: [[3, 3], [2, 2, 2], [3, 2, 1]]}
+
+    @st.composite
+    def cross_query(draw, spec):
+        """equal total dimension, but grouped differently across the terms of the two sides:
+        area.area <-> volume.length, (2,2,2) <-> (3,3) ... over the first family and its
+        area/volume units (with or without definitions in terms of lengths)"""
+        names = synth.unit_names(spec)
+        d0 = spec["fams"][0]["dim"]
+        by = {}
+        for n, (d, k) in sorted(names.items()):
+            if d == d0:
+                by.setdefault(k, []).append(n)
+        total = draw(st.sampled_from([4, 5, 6]))
+        sides = []
+        for _ in range(2):
+            part = synth._choose(draw, PARTS[total])
+            terms = {}
+            for k in part:
+                if k not in by:
+                    k_units = [(1, n) for n in by[1]]
+                    for _i in range(k):
+                        kk, n = synth._choose(draw, k_units)
+                        terms[n] = terms.get(n, 0) + 1
+                else:
+                    n = synth._choose(draw, by[k])
+                    terms[n] = terms.get(n, 0) + 1
+            sides.append([["", n, e] for n, e in sorted(terms.items())])
+        return {"src": sides[0], "dst": sides[1], "mag": draw(MAG)}
+
     @st.composite
     def mix(draw):
         sel = draw(convgen.INT100)
@@ -92,10 +122,13 @@ def strategy(tier):
             spec = draw(SPEC)
             qs = []
             for _ in range(8):
-                if draw(convgen.INT10) < 6:
+                sel2 = draw(convgen.INT10)
+                if sel2 < 5:
                     qs.append(synth.draw_dok_query(draw, spec, MAG))
-                else:
+                elif sel2 < 8:
                     qs.append(draw(free_query(spec)))
+                else:
+                    qs.append(draw(cross_query(spec)))
             return {"g": "syn", "world": spec, "queries": qs}
         return {"g": "chain", "n": draw(CHAIN)}
 
